@@ -116,9 +116,18 @@ impl<S: TextRenderer> Text<'_, S> {
     fn lines(&self) -> impl Iterator<Item = (&str, Point)> {
         let mut position = self.position;
 
-        self.text.split('\n').map(move |line| {
-            // remove trailing '\r' for '\r\n' line endings, before the line is measured
-            let line = line.strip_suffix('\r').unwrap_or(line);
+        let mut lines = self.text.split('\n').peekable();
+
+        core::iter::from_fn(move || {
+            let line = lines.next()?;
+
+            // remove trailing '\r' for '\r\n' line endings, before the line is measured; the last
+            // line isn't followed by a line ending, a '\r' at its end is a regular character
+            let line = if lines.peek().is_some() {
+                line.strip_suffix('\r').unwrap_or(line)
+            } else {
+                line
+            };
 
             let p = match self.text_style.alignment {
                 Alignment::Left => position,
@@ -142,7 +151,7 @@ impl<S: TextRenderer> Text<'_, S> {
 
             position.y += self.line_height();
 
-            (line, p)
+            Some((line, p))
         })
     }
 }
